@@ -119,13 +119,15 @@ pub fn vx_any_box<F: Fn(&DnsRecordBox) -> bool>(v: &Vec<DnsRecordBox>, f: F, p: 
 pub fn vx_vec_take<T>(v: &mut Vec<T>) -> (r: Vec<T>)
     ensures r@ == old(v)@, final(v)@ == Seq::<T>::empty(),
 { unimplemented!() }
-// the daemon, reduced to the three fields conflict_handler touches (a change that touches another field no longer compiles here)
+// the daemon, reduced to the fields conflict_handler and handle_read touch (a change that touches another field no longer compiles here)
 #[verifier::external_body] pub struct ZeroconfRest { x: u8 }
 pub struct MyIntf { pub name: String, pub index: u32 }
 pub struct Zeroconf {
     pub my_intfs: HashMap<u32, MyIntf>,
     pub dns_registry_map: HashMap<u32, DnsRegistry>,
     pub timers: BinaryHeap<Reverse<u64>>,
+    pub ipv4_sock: Option<MyUdpSocket>,
+    pub ipv6_sock: Option<MyUdpSocket>,
     pub rest: ZeroconfRest,
 }
 // ---- the statement (C08) ----
@@ -186,4 +188,52 @@ pub open spec fn matches_one<T: DnsRecordExt>(answer: &T, l: Seq<DnsRecordBox>, 
 }
 pub open spec fn active_match<T: DnsRecordExt>(answer: &T, active: Map<String, Vec<DnsRecordBox>>) -> bool {
     active.contains_key(key_string(rec_name(answer.rec()))) && matches_one(answer, active[key_string(rec_name(answer.rec()))]@, active[key_string(rec_name(answer.rec()))]@.len() as int)
+}
+// ---- handle_read ----
+// the socket layer: `recv` fills the front of the buffer with one datagram and says how long it is; what lies behind those
+// bytes in the buffer is not part of any datagram
+pub uninterp spec fn is_datagram(d: Seq<u8>) -> bool;
+#[verifier::external_body] pub struct PktInfoUdpSocket { x: u8 }
+#[verifier::external_body] pub struct IoError { x: u8 }
+#[verifier::external_body] pub struct SocketAddr { x: u8 }
+pub struct PktInfo { pub if_index: u64, pub addr_src: SocketAddr }
+impl PktInfoUdpSocket {
+    #[verifier::external_body]
+    pub fn recv(&mut self, buf: &mut Vec<u8>) -> (r: core::result::Result<(usize, PktInfo), IoError>)
+        ensures final(buf)@.len() == old(buf)@.len(), r is Ok ==> r->Ok_0.0 <= old(buf)@.len() && is_datagram(final(buf)@.take(r->Ok_0.0 as int)),
+    { unimplemented!() }
+}
+#[verifier::external_body]
+pub fn vx_would_block(e: &IoError) -> (r: bool) { unimplemented!() }
+pub struct MyUdpSocket { pub pktinfo: PktInfoUdpSocket }
+#[verifier::external_body]
+pub fn vx_zeroed(n: usize) -> (r: Vec<u8>) ensures r@.len() == n { unimplemented!() }
+pub assume_specification<T, A: core::alloc::Allocator> [Vec::<T, A>::shrink_to] (v: &mut Vec<T, A>, min_capacity: usize)
+    ensures final(v)@ == old(v)@;
+impl MyIntf {
+    #[verifier::external_body]
+    pub fn next_ifaddr_v4(&self) -> (r: Option<&IfAddr>) { unimplemented!() }
+    #[verifier::external_body]
+    pub fn next_ifaddr_v6(&self) -> (r: Option<&IfAddr>) { unimplemented!() }
+}
+#[verifier::external_body]
+pub fn vx_intf_id(intf: &MyIntf) -> (r: InterfaceId)
+    ensures r.index == intf.index, r.name@ == intf.name@,
+{ unimplemented!() }
+impl DnsIncoming {
+    // the decoder (unit decoder: every property of C01 is stated over `data`): it must be given one datagram, not the receive buffer
+    #[verifier::external_body]
+    pub fn new(data: Vec<u8>, interface_id: InterfaceId) -> (r: Result<DnsIncoming>)
+        requires is_datagram(data@), // @props C01
+    { unimplemented!() }
+    #[verifier::external_body]
+    pub fn is_query(&self) -> (r: bool) { unimplemented!() }
+    #[verifier::external_body]
+    pub fn is_response(&self) -> (r: bool) { unimplemented!() }
+}
+impl Zeroconf {
+    #[verifier::external_body]
+    pub fn handle_query(&mut self, msg: DnsIncoming, if_index: u32, addr: SocketAddr) { unimplemented!() }
+    #[verifier::external_body]
+    pub fn handle_response(&mut self, msg: DnsIncoming, if_index: u32) { unimplemented!() }
 }
